@@ -25,9 +25,11 @@ OutStep(s, ev) ==
       xmlTree == SameContent(s.ref, ev.tree, IndentOn(o, "xml"))
       htmlTree == HtmlSame(s.ref, ev.tree, o)
       txt  == TextOf(s.ref)
+      (* a comment / PI character the encoding cannot represent: signalling an error is the conforming outcome *)
+      refused == ev.status # 0 /\ ~MarkupRepresentable(s.ref, enc)
       ok == /\ seen
-            /\ CASE m = "xml"  -> ran /\ xmlTree /\ DeclOK(o, ev.decl) /\ DoctypeOK(o, ev.doctype, s.ref, m)
-                 [] m = "html" -> ran /\ htmlTree /\ DoctypeOK(o, ev.doctype, s.ref, m)
+            /\ CASE m = "xml"  -> refused \/ (ran /\ xmlTree /\ DeclOK(o, ev.decl) /\ DoctypeOK(o, ev.doctype, s.ref, m))
+                 [] m = "html" -> refused \/ (ran /\ htmlTree /\ DoctypeOK(o, ev.doctype, s.ref, m))
                  [] m = "text" -> IF RepresentableIn(txt, enc) THEN ran /\ ev.text = txt
                                   ELSE ev.status # 0          \* 16.3: "should signal an error"
       why == IF ~seen THEN "parsed as " \o ev.kind \o "/" \o ev.enc \o " but the options mean " \o m \o "/" \o enc
